@@ -144,7 +144,9 @@ def generate(rng: random.Random, cfg: dict | None = None) -> dict:
     mothers: list = []
     conj_pairs = []  # (source mother, cdecay name, needs ChargeConj statement?)
     n_tables = rng.randint(1, max_tables)
-    daughters_pool = [rng.choice(names) for _ in range(8)]
+    # documents of one session may share their small pool of daughter names (cfg["name_pool"]): state that one parser leaves
+    # behind in the process about a name is then met by another parser's file
+    daughters_pool = list(cfg.get("name_pool") or [rng.choice(names) for _ in range(8)])
     decaying: list = []
 
     def pick_mother():
@@ -223,7 +225,7 @@ def generate(rng: random.Random, cfg: dict | None = None) -> dict:
             cc = fresh_label(rng, used, "Anti")
             if rng.random() < 0.25 and t["conj_names"]:
                 # a plain particle declared to be the conjugate of something else in this file
-                cand = rng.choice(t["conj_names"])
+                cand = rng.choice([n for n in daughters_pool if n in t["conj"]] or t["conj_names"])
                 if cand not in mothers and cand not in cdecay_names and cand not in [c[0] for c in copies] and cand != src:
                     cc = cand
             if rng.random() < 0.5:
